@@ -124,7 +124,7 @@ class Screen:
         self.dl_ty = [f["ty"].get("adt") for f in tfields if f["name"] == self.dirty_field][0]
         self.dl_mark, self.dl_unmark, self.dl_export, self.dl_ctor = set(), set(), set(), set()
         for fn, fo in F.fns.items():
-            if (fo.get("impl_self") or {}).get("adt") != self.dl_ty or fn not in w.bodies:
+            if (fo.get("impl_self") or {}).get("adt") != self.dl_ty or fn not in w.bodies or "impl_trait" in fo:
                 continue
             consts = self._bool_consts(fn)
             s = E.summaries[fn]
